@@ -552,6 +552,12 @@ func (x *Exec) callWith(st *State, in ssa.Instruction, c *ssa.CallCommon, fnv Va
 	if fv != nil && fv.Fn != nil {
 		return x.callStatic(st, in, c, fv, args, resT)
 	}
+	// a closure of the enclosing function reached through a captured variable that only ever holds that closure
+	if fns := localClosures(c.Value); len(fns) == 1 {
+		if _, has := x.prog.Contracts[funcKey(fns[0])]; has {
+			return x.callStatic(st, in, c, &FuncVal{Fn: fns[0], Sig: c.Value.Type()}, args, resT)
+		}
+	}
 	// dynamic function value
 	if fc := x.prog.funcTypeContract(c.Value.Type()); fc != nil {
 		x.externsUsed["functype "+fc.Key] = true
@@ -1651,6 +1657,31 @@ func localClosures(v ssa.Value) []*ssa.Function {
 	}
 	a, ok := u.X.(*ssa.Alloc)
 	if !ok {
+		// a variable captured from the enclosing function: resolve it there (the variable must only ever hold
+		// closures of the enclosing function, and this closure must not assign it)
+		fv, isFV := u.X.(*ssa.FreeVar)
+		if !isFV || fv.Parent() == nil || fv.Parent().Parent() == nil {
+			return nil
+		}
+		inner := fv.Parent()
+		idx := -1
+		for i, f := range inner.FreeVars {
+			if f == fv {
+				idx = i
+			}
+		}
+		if idx < 0 || writesFreeVar(inner, fv, 0) {
+			return nil
+		}
+		for _, b := range inner.Parent().Blocks {
+			for _, in := range b.Instrs {
+				if mc, ok := in.(*ssa.MakeClosure); ok && mc.Fn == ssa.Value(inner) && idx < len(mc.Bindings) {
+					if pa, ok := mc.Bindings[idx].(*ssa.Alloc); ok {
+						return localClosures(&ssa.UnOp{X: pa})
+					}
+				}
+			}
+		}
 		return nil
 	}
 	var out []*ssa.Function
